@@ -334,7 +334,8 @@ def planIndex {α} (v : View α) (h : Nat) (old : List α) : Index → Except Er
   | .arr is => match mapE (normIdxE old.length) is with
     | .error e => .error e
     | .ok idxs => .ok (selPlan h (pick old idxs))
-  | .mask bs => if bs.length ≠ old.length then .error .index else .ok (selPlan h (pick old (trueIdx bs 0)))
+  -- numpy accepts an empty boolean index on an axis of any size (it selects nothing)
+  | .mask bs => if bs.length ≠ old.length ∧ bs ≠ [] then .error .index else .ok (selPlan h (pick old (trueIdx bs 0)))
   | .label p => match findLabel v.lab old p with
     | .error e => .error e
     | .ok k => match old[k]? with
@@ -559,7 +560,9 @@ def dedup : List Nat → List Nat → List Nat
   | [], _ => []
   | a :: r, seen => if a ∈ seen then dedup r seen else a :: dedup r (a :: seen)
 
-def execPlan (w : World) (p : Plan Nat) : World × Except Err Res :=
+/-- pre-writes done (`pre`), the target structure present (pushed if new), the incoming atoms
+materialised and linked to the target's lattice: (world, target handle, materialised atoms) -/
+def prep (w : World) (p : Plan Nat) : World × Nat × List Nat :=
   let w0 := match p.pre with
     | some (h, xs) => w.setLats xs (w.latOf h)
     | none => w
@@ -571,15 +574,18 @@ def execPlan (w : World) (p : Plan Nat) : World × Except Err Res :=
     | .old h => h
     | .new _ => w0.strus.length
   let c := copySome w1 p.inc p.flags
-  let w2 := c.1.setLats c.2 (w1.latOf h)
-  match p.edit.apply (w2.atomsOf h) c.2 with
+  (c.1.setLats c.2 (w1.latOf h), h, c.2)
+
+def execPlan (w : World) (p : Plan Nat) : World × Except Err Res :=
+  let q := w.prep p
+  match p.edit.apply (q.1.atomsOf q.2.1) q.2.2 with
   | .ok (new, ret) =>
-    (w2.setAtoms h new,
+    (q.1.setAtoms q.2.1 new,
      .ok (match p.tgt, ret with
-          | .new _, _ => .stru h
-          | .old _, some a => .atom a h
+          | .new _, _ => .stru q.2.1
+          | .old _, some a => .atom a q.2.1
           | .old _, none => .none))
-  | .error e => (w2, .error e)
+  | .error e => (q.1, .error e)
 
 def exec (w : World) : Act Nat → World × Except Err Res
   | .plan p => w.execPlan p
